@@ -192,6 +192,9 @@ def _body_lines(body: dict, params: list[str], env_name: str = "_E") -> list[str
         return ["return 1"]
     if b == "wrongArity":
         return [f"return tuple(({body['t']!r}, _i) for _i in range({body['k']}))"]
+    if b == "handlerDict":
+        # the handler answers a multi-output interrupt with ONE dict object that it keeps (a module-level constant): `_RESP` (Python side only)
+        return ["return _RESP"]
     if b == "handler":
         if body.get("k") is None:
             return ["return None"]
@@ -240,6 +243,8 @@ def make_function(spec: dict, fnid: str, env: Env, *, is_async: bool) -> Any:
         lines.append(f"        if _E.trace is not None: _E.trace.append(('finish', {fnid!r}))")
         lines.append("        _E.inflight -= 1")
     glob = {"_E": env, "_DEF": defaults, "_V": py_val, "_D": py_dec}
+    if spec["body"]["b"] == "handlerDict":
+        glob["_RESP"] = {o: spec["body"].get("k", 1) for o in spec.get("dataOuts", [])}
     if spec["body"]["b"] == "closure":
         # def _factory(_c): <the function> ; return it — the text of two such functions is IDENTICAL whatever was captured, and it is
         # retrievable (registered with linecache), as for a function made by a factory defined in a file
